@@ -489,7 +489,26 @@ func genValues(rng *rand.Rand, t reflect.Type, n int) []reflect.Value {
 		if rng.Intn(15) != 0 { // sometimes the all-zero record
 			genValue(rng, p.Elem(), 1)
 		}
+		if rng.Intn(3) == 0 {
+			zeroSome(rng, p.Elem()) // zero-heavy records: zero fields next to non-zero neighbours
+		}
 		out[i] = p.Elem()
 	}
 	return out
+}
+
+// zeroSome resets about half of the top-level scalar fields to zero.
+func zeroSome(rng *rand.Rand, v reflect.Value) {
+	for i := 0; i < v.NumField(); i++ {
+		f := v.Field(i)
+		if !f.CanSet() {
+			continue
+		}
+		switch f.Kind() {
+		case reflect.Bool, reflect.Int, reflect.Int16, reflect.Int32, reflect.Int64, reflect.Float32, reflect.Float64, reflect.String:
+			if rng.Intn(2) == 0 {
+				f.Set(reflect.Zero(f.Type()))
+			}
+		}
+	}
 }
